@@ -686,6 +686,42 @@ def match_part(ctx, rep):
     return bad, metas, found
 
 
+KNOWN_SIG = "C15:match:raises-NotImplementedError"
+UNSUPPORTED_PATTERN_BT = [4, 5, 6, 10, 98, 99, 100, 101]
+
+
+def known_part(ctx, rep):
+    """Recorded finding: a pattern bond of type Quadruple/Quintuple/Sextuple/Dummy/Ligand/FractionalOrder/H_Donor/
+    H_Acceptor makes _edge_match raise NotImplementedError, so a molecule does not even match itself.  Replayed on
+    every run; the random pattern generator stays inside the supported vocabulary."""
+    import molli as ml
+    repro = False
+    for bt in UNSUPPORTED_PATTERN_BT:
+        g = ([(6, None, 0, 1), (6, None, 0, 1)], [(0, 1, bt, 0, None)])
+        obs = observe_match(ml, g, g, "mol")
+        rep.case(key=f"match:self:{bt}")
+        rep.count("match:unsupported-pattern-bond")
+        rp = {"kind": "match-self", "btype": bt}
+        if isinstance(obs, str):
+            sig = f"C15:match:raises-{obs[4:]}"
+            repro = repro or sig == KNOWN_SIG
+            rep.violate(sig, f"a C-C molecule with bond type {ml.BondType(bt).name} matched against itself raises "
+                             f"{obs[4:]} instead of returning its embeddings", rp)
+        elif (0, 1) not in obs:
+            rep.violate("C15:match:missed", f"a C-C molecule with bond type {ml.BondType(bt).name} does not match itself: {obs}", rp)
+    if repro:
+        # optional Coq obligation over the table regenerated on this run: some cell still raises NotImplementedError
+        d = ctx.sub("known")
+        pth = os.path.join(d, "C15_known.v")
+        open(pth, "w").write("From Coq Require Import List NArith.\nFrom Molli Require Import Gen.MatchPreds.\n"
+                             "Example known_C15_unsupported_btype : existsb (N.eqb 2) edge_obs = true.\n"
+                             "Proof. vm_compute. reflexivity. Qed.\n")
+        rc, out = vlib.coqc(pth, 300)
+        if rc == 0:
+            rep.oblig("known_C15_unsupported_btype", True)
+    return [KNOWN_SIG] if repro else []
+
+
 def table_search(ctx, rep, tabs):
     """A table theorem no longer holds: name the grid cells where code and specification differ and try to turn
     them into a concrete matching query that violates the property."""
@@ -785,6 +821,7 @@ def run(ctx, rep):
         if not any_found:
             any_found = table_search(ctx, rep, tabs)
         vlib.broken_obligation(rep, "C15_props", f"{where}\n{out[-1500:]}", any_found)
+    return known_part(ctx, rep)
 
 
 def widened_search(ctx, rep):
@@ -816,6 +853,14 @@ def replay(ctx, data):
         obs, orders = observe_graph(ml, n, bonds, btypes=bt, queries=[q], cls=data.get("cls"))
         for sig, text in judge_query(n, bonds, orders, q, obs[0][1]):
             out.append(vlib.Violation(sig, f"atoms={n} bonds={bonds}: {text}"))
+    elif data.get("kind") == "match-self":
+        bt = data["btype"]
+        g = ([(6, None, 0, 1), (6, None, 0, 1)], [(0, 1, bt, 0, None)])
+        obs = observe_match(ml, g, g, "mol")
+        if isinstance(obs, str):
+            out.append(vlib.Violation(f"C15:match:raises-{obs[4:]}", f"C-C with bond type {bt} matched against itself raises {obs[4:]}"))
+        elif (0, 1) not in obs:
+            out.append(vlib.Violation("C15:match:missed", f"C-C with bond type {bt} does not match itself: {obs}"))
     elif data.get("kind") == "match":
         tup = lambda g: ([tuple(a) for a in g[0]], [tuple(b) for b in g[1]])
         host, pat = tup(data["host"]), tup(data["pattern"])
